@@ -15,7 +15,7 @@ INFO = {
     ],
     "bounds": {
         "quick": {"jobs": "<=3 (one, chain2, indep2, chain3)", "death_point": "after 0..12 delivered events of the first run (one shard each; the events themselves are chosen symbolically)", "schedule": "3 symbolic choice points in each run (2 for indep2/chain3), then FIFO", "death": "SIGKILL-like (loop, helper threads and locks of the scheduler vanish; job processes live on)"},
-        "thorough": {"schedule": "5 choice points in each run", "jobs": "adds fork3/join3 and a file token"},
+        "thorough": {"schedule": "4 choice points in each run", "jobs": "adds fork3/join3 and a file token"},
     },
     "stubs": schedlib.STUBS + ["a process handle obtained from a pid file by another process has no exit status (like psutil for a non-child): the scheduler then relies on the markers"],
     "symbolic_data": True,
@@ -127,7 +127,7 @@ def restart(
 
 def conditions(tier):
     conds = []
-    K = 3 if tier == "quick" else 5
+    K = 3 if tier == "quick" else 4
     tmo = 900 if tier == "quick" else 3000
     shapes = ["one", "chain2", "indep2", "chain3"] if tier == "quick" else ["one", "chain2", "indep2", "chain3", "fork3", "join3"]
     for sh in shapes:
